@@ -255,4 +255,183 @@ theorem count_chars_iter_agree (cs : List Char) (h : NoNul cs) :
       rw [enum_enc _ he, ih ht]
       simp [String.length_utf8EncodeChar]
 
+/-! ## arbitrary bytes: termination inside the buffers (`utf_safe`)
+
+Every model function is total (structural recursion), so termination is by construction; what is proved is
+that no reader ever leaves the allocation (`some`), whatever the bytes — ill-formed, truncated, overlong —
+as long as a terminator is present, and that what is written fits the buffer the callers allocate. -/
+
+/-- readers on any allocation that contains a NUL: never out of bounds, and the number of elements written
+    (before the terminator the converters add) is at most `strlen` -/
+theorem utf_safe_readers (m : List UInt8) (n : Int) (h : hasNul m = true) :
+    (∃ out, utf8toUtf32 m n = some out ∧ out.length ≤ strlen m) ∧
+    (∃ out, utf8toUtf16 m n = some out ∧ out.length ≤ strlen m) ∧
+    (∃ k, countFrom m = some k ∧ k ≤ strlen m) ∧
+    (∃ l, enumAll m = some l ∧ (l.map (·.2)).sum = strlen m ∧ ∀ p ∈ l, okPair p) := by
+  refine ⟨?_, ?_, ?_, ?_⟩
+  · have h1 := d32_some m n h
+    have h2 := d32_le m n
+    cases hr : utf8toUtf32 m n with
+    | none => simp [hr] at h1
+    | some out => exact ⟨out, rfl, by simpa [hr] using h2⟩
+  · have h1 := d16_some m n h
+    have h2 := d16_le m n
+    cases hr : utf8toUtf16 m n with
+    | none => simp [hr] at h1
+    | some out => exact ⟨out, rfl, by simpa [hr] using h2⟩
+  · have h1 := count_some m h
+    cases hr : countFrom m with
+    | none => simp [hr] at h1
+    | some k => exact ⟨k, rfl, count_le m k hr⟩
+  · have h1 := enum_some m h
+    cases hr : enumAll m with
+    | none => simp [hr] at h1
+    | some l => exact ⟨l, rfl, enum_sum m l hr, enum_ok m l hr⟩
+
+/-- the encoders on any 32-bit values followed by a zero: never out of bounds; at most 4 bytes per code
+    (`fromCodes` allocates `4·n`), at most 3 bytes per UTF-16 unit (`String(const wchar_t*)` allocates `4·wcslen`) -/
+theorem utf_safe_encoders (p : List Int) (n : Int) (h : hasZero p = true) :
+    (∃ out, utf32toUtf8 p n = some out ∧ out.length ≤ 4 * ilen p) ∧
+    (∃ out, utf16toUtf8 p n = some out ∧ out.length ≤ 3 * ilen p) := by
+  refine ⟨?_, ?_⟩
+  · have h1 := e32_some p n h
+    have h2 := e32_le p n
+    cases hr : utf32toUtf8 p n with
+    | none => simp [hr] at h1
+    | some out => exact ⟨out, rfl, by simpa [hr] using h2⟩
+  · have h1 := e16_some p n h
+    have h2 := e16_le p n
+    cases hr : utf16toUtf8 p n with
+    | none => simp [hr] at h1
+    | some out => exact ⟨out, rfl, by simpa [hr] using h2⟩
+
+theorem wideRoom_ge (len : Nat) : len + 1 ≤ wideRoom len := by
+  unfold wideRoom wideOffset
+  rw [and3, and3]
+  omega
+
+theorem ilen_le (p : List Int) : ilen p ≤ p.length := by
+  unfold ilen
+  induction p with
+  | nil => simp
+  | cons a t ih => simp only [List.takeWhile_cons]; split <;> simp <;> omega
+
+theorem ilen_append_zero (codes : List Int) : ilen (codes ++ [0]) ≤ codes.length := by
+  unfold ilen
+  induction codes with
+  | nil => simp
+  | cons a t ih => simp only [List.cons_append, List.takeWhile_cons]; split <;> simp <;> omega
+
+/-- the String methods on every byte string `s` (any bytes, NULs included), with the buffer each one uses:
+    `count()`; `chars()` writes at most `length()+1` ints into `Array<int>(length()+1)`; iteration consumes
+    exactly the C string; `dataw()` writes units and terminator inside the scratch area of the resized buffer -/
+theorem utf_safe_string (s : List UInt8) :
+    (∃ k, count s = some k ∧ k ≤ s.length) ∧
+    (∃ out, chars s = some out ∧ out.length + 1 ≤ s.length + 1) ∧
+    (∃ l, iter s = some l ∧ (l.map (·.2)).sum ≤ s.length ∧ ∀ p ∈ l, okPair p) ∧
+    (∃ w, dataw s = some w ∧ w.length + 1 ≤ wideRoom s.length) := by
+  have hm := hasNul_mem s
+  have hl := strlen_mem s
+  obtain ⟨⟨o1, h1, l1⟩, _, _, _⟩ := utf_safe_readers (mem s) s.length hm
+  obtain ⟨_, ⟨o2, h2, l2⟩, ⟨k, h3, l3⟩, ⟨l, h4, l4, l5⟩⟩ := utf_safe_readers (mem s) s.length hm
+  refine ⟨⟨k, h3, by omega⟩, ⟨o1, h1, by omega⟩, ⟨l, h4, by omega, l5⟩, ⟨o2, h2, ?_⟩⟩
+  have := wideRoom_ge s.length
+  omega
+
+/-- `fromCodes`, `fromCode`, `String(const wchar_t*)` on arbitrary 32-bit values: inside the allocated
+    `4·n + 1`, `4 + 1` and `cap()` bytes (terminator included) -/
+theorem utf_safe_constructors (codes : List Int) (c : Int) (w : List Int) (hw : hasZero w = true) :
+    (∃ out, fromCodes codes = some out ∧ out.length + 1 ≤ 4 * codes.length + 1) ∧
+    (∃ out, fromCode c = some out ∧ out.length + 1 ≤ 4 + 1) ∧
+    (∃ out, fromWide w = some out ∧ out.length + 1 ≤ capAfterInit (4 * ilen w)) := by
+  refine ⟨?_, ?_, ?_⟩
+  · obtain ⟨⟨o, h1, l1⟩, _⟩ := utf_safe_encoders (codes ++ [0]) (codes.length + 1) (by simp [hasZero])
+    refine ⟨o, h1, ?_⟩
+    have := ilen_append_zero codes
+    omega
+  · obtain ⟨⟨o, h1, l1⟩, _⟩ := utf_safe_encoders [c, 0] 1 (by simp [hasZero])
+    refine ⟨o, h1, ?_⟩
+    have : ilen [c, 0] ≤ 1 := by
+      unfold ilen
+      simp only [List.takeWhile_cons]; split <;> simp
+    omega
+  · obtain ⟨_, ⟨o, h1, l1⟩⟩ := utf_safe_encoders w (capAfterInit (4 * ilen w)) hw
+    refine ⟨o, ?_, ?_⟩
+    · unfold fromWide; exact h1
+    · unfold capAfterInit
+      split <;> omega
+
+/-! ## G obligations: facts about the case tables regenerated from `src/unicodedata.cpp`
+(one linear pass each, evaluated by the kernel; a changed entry that breaks a fact breaks the build) -/
+
+/-- both tables hold 1443 two-byte entries plus the literal's terminator -/
+theorem tables_size : toUppercaseU8.size = 2887 ∧ toLowercaseU8.size = 2887 := by decide +kernel
+
+/-- every table read of `toUpperCase`, `toLowerCase` (`code < cut`) and `equalsNocase` (`code ≤ cut`) is inside the table -/
+theorem table_reads_in_bounds :
+    upperCut * 2 ≤ toUppercaseU8.size ∧ lowerCut * 2 ≤ toLowercaseU8.size ∧
+    nocaseCut1 * 2 + 1 < toLowercaseU8.size ∧ nocaseCut2 * 2 + 1 < toLowercaseU8.size := by decide +kernel
+
+/-- the cut-over constants of the three functions, as read from `src/String.cpp` -/
+theorem cutovers : upperCut = 1415 ∧ lowerCut = 1415 ∧ nocaseCut1 = 1415 ∧ nocaseCut2 = 1415 := by decide
+
+theorem upper_shape : allPairs shapeOK 0 toUppercaseU8.toList = true := by decide +kernel
+theorem lower_shape : allPairs shapeOK 0 toLowercaseU8.toList = true := by decide +kernel
+
+/-- on ASCII the tables are the C-locale `toupper`/`tolower` -/
+theorem upper_ascii : allPairs (fun i a b => decide (128 ≤ i) || (a == Std.toupperC (UInt8.ofNat i) && b == 0)) 0
+    toUppercaseU8.toList = true := by decide +kernel
+theorem lower_ascii : allPairs (fun i a b => decide (128 ≤ i) || (a == Std.tolowerC (UInt8.ofNat i) && b == 0)) 0
+    toLowercaseU8.toList = true := by decide +kernel
+
+/-- needed by `nocase_iff_lower_eq`: no lower-case entry collides with a re-encoded code point above the cut-over,
+    and the entry of the cut-over code point 1415 is its own UTF-8 (`D6 87`) -/
+theorem lower_order : allPairs lowOrdOK 0 toLowercaseU8.toList = true := by decide +kernel
+theorem lower_cut_entry : toLowercaseU8.getD (1415 * 2) 0 = 0xD6 ∧ toLowercaseU8.getD (1415 * 2 + 1) 0 = 0x87 := by
+  decide +kernel
+
+/-! ## case mapping on arbitrary bytes -/
+
+/-- case mapping never produces more bytes than its input (and never reads outside its input):
+    the result buffer `String s(_len, _len)` always suffices -/
+theorem case_len_le (s : List UInt8) :
+    (∃ u, toUpperCase s = some u ∧ u.length ≤ s.length) ∧ (∃ l, toLowerCase s = some l ∧ l.length ≤ s.length) := by
+  constructor
+  · exact caseMap_len _ _ upper_shape (by decide) table_reads_in_bounds.1 s
+  · exact caseMap_len _ _ lower_shape (by decide) table_reads_in_bounds.2.1 s
+
+/-- on ASCII text the case mappings are those of the C locale -/
+theorem ascii_case_c_locale (s : List UInt8) (h : ∀ b ∈ s, b ≠ 0 ∧ b.toNat < 128) :
+    toUpperCase s = some (s.map Std.toupperC) ∧ toLowerCase s = some (s.map Std.tolowerC) := by
+  have hu : ∀ b : UInt8, b.toNat < 128 → mapCode toUppercaseU8 upperCut b.toNat = [Std.toupperC b] := by
+    intro b hb
+    have h1 := table_fact _ _ upper_ascii b.toNat (by have := tables_size.1; omega)
+    have hd : decide (128 ≤ b.toNat) = false := decide_eq_false (by omega)
+    simp only [hd, Bool.false_or, Bool.and_eq_true, beq_iff_eq, UInt8.ofNat_toNat] at h1
+    have hc : b.toNat < upperCut := by have := cutovers.1; omega
+    simp [mapCode, hc, tableBytes, h1.1, h1.2]
+  have hl : ∀ b : UInt8, b.toNat < 128 → mapCode toLowercaseU8 lowerCut b.toNat = [Std.tolowerC b] := by
+    intro b hb
+    have h1 := table_fact _ _ lower_ascii b.toNat (by have := tables_size.2; omega)
+    have hd : decide (128 ≤ b.toNat) = false := decide_eq_false (by omega)
+    simp only [hd, Bool.false_or, Bool.and_eq_true, beq_iff_eq, UInt8.ofNat_toNat] at h1
+    have hc : b.toNat < lowerCut := by have := cutovers.2.1; omega
+    simp [mapCode, hc, tableBytes, h1.1, h1.2]
+  have key : ∀ (f : Nat → List UInt8) (g : UInt8 → UInt8), (∀ b : UInt8, b.toNat < 128 → f b.toNat = [g b]) →
+      ∀ t : List UInt8, (∀ b ∈ t, b ≠ 0 ∧ b.toNat < 128) →
+      (t.map fun b => (b.toNat, 1)).flatMap (fun cn => f cn.1) = t.map g := by
+    intro f g hf t
+    induction t with
+    | nil => simp
+    | cons b t ih =>
+      intro ht
+      simp only [List.map_cons, List.flatMap_cons]
+      rw [hf b (ht b (by simp)).2, ih (fun c hc => ht c (by simp [hc]))]
+      rfl
+  constructor
+  · simp only [toUpperCase, caseMap, enum_ascii s h, Option.map_some]
+    rw [key _ _ hu s h]
+  · simp only [toLowerCase, caseMap, enum_ascii s h, Option.map_some]
+    rw [key _ _ hl s h]
+
 end C08
